@@ -79,6 +79,7 @@ def run(ctx, rep):
         check_cut(crate, rep, cfg)
         check_sc(crate, rep, cfg)
         check_lookup(crate, rep, cfg)
+        check_in(crate, rep, cfg)
         # "exactly one level of undefined" in the fused path instructions (shared with C09)
         from props import c09
         c09.check_fused_load(crate, crate.one("vm::interpreter::VirtualMachine::<'tera>::interpret"), rep, cfg)
@@ -489,3 +490,38 @@ def check_lookup(crate, rep, cfg):
         rep.add("C02.LOOKUP", "C02.LOOKUP:%s:only-the-typed-lookup" % variant, ok, vm.where(calls[0][0]) if calls else vm.where(0),
                 "the %s arm pushes only the Ok payload of %s on the popped base (or undefined from the `?` shortcut before it); type errors of the lookup are raised, not coerced" % (variant, fn.rsplit("::", 1)[-1])
                 + ("" if ok else " — VIOLATED: " + why))
+
+
+def check_in(crate, rep, cfg):
+    """C02.IN — `x in array` is "some element == x" with the language's own `==` (so `2 in [2.0]` like `2 == 2.0`): in Value::contains the
+    answer for an array is `<[Value]>::contains(arr, needle)` (std, element-wise PartialEq for Value) and nothing else — no comparison of
+    payloads fetched through kind-specific accessors, which disagree with `==` across numeric kinds."""
+    b = crate.one("value::Value::contains")
+    rep.analysed(b)
+    tr = Tracer(b)
+    ef = EdgeFacts(b, crate)
+    arm = set()
+    for sb in sorted(b.reachable):
+        if b.term(sb)["k"] != "switch":
+            continue
+        for tgt, fl in ef.facts_for_switch(sb).items():
+            for f in fl:
+                if f[0] == "variant" and f[1].endswith("ValueInner") and f[4] and set(f[3]) == {"Array"} and tgt != sb:
+                    arm |= {x for x in b.reach_from(tgt) if b.dominates(tgt, x)}
+    calls = [(bb, t) for bb, t in b.calls(sorted(arm))]
+    cont = [(bb, t) for bb, t in calls if callee_def(t).endswith("<impl [T]>::contains") and "value::Value" in str(t["f"].get("targs"))]
+    other = sorted({callee_def(t).rsplit("::", 1)[-1] for bb, t in calls} - {"contains", "deref", "as_slice", "as_ref"})
+    ok = bool(arm) and len(cont) == 1 and not other
+    why = "array arm calls %s" % (other or "no slice::contains over Value")
+    if ok:
+        nl = tr.operand(cont[0][1]["args"][1])
+        ok = bool(nl) and all(l.kind == "param" and l.detail == 2 for l in nl)
+        why = "the value searched for is not the needle itself"
+        oks = [(bb, idx, st) for bb, idx, st in find_aggs(b, "std::result::Result", "Ok") if bb in arm]
+        for bb, idx, st in oks:
+            ol = tr.operand(st["rv"]["ops"][0])
+            if not (ol and all(l.kind == "call" and l.detail[2] == cont[0][0] for l in ol)):
+                ok, why = False, "the array arm answers with something else than slice::contains' result"
+        ok = ok and bool(oks)
+    rep.add("C02.IN", "C02.IN:array:element-wise-value-eq", ok, b.where(cont[0][0]) if cont else b.where(0), "`in` on an array is <[Value]>::contains(needle): element-wise `==` of Value, "
+            "the same relation as the `==` operator" + ("" if ok else " — VIOLATED: " + why))
